@@ -39,6 +39,8 @@ def _import_repo():
     src = os.path.dirname(os.path.abspath(pyairtouch.__file__))
     if not src.startswith(os.path.abspath(REPO)):
         raise RuntimeError(f"pyairtouch imported from {src}, expected under {REPO}")
+    from sx import procstate
+    procstate.snapshot()
     return src
 
 
@@ -127,7 +129,8 @@ class CodeCoverage:
 
 def replay_one(harness, params, assignment, known_open):
     """Concrete run (no shims, no proxies, stock loop). Returns dict."""
-    from sx import core
+    from sx import core, procstate
+    procstate.restore()
     ctx = core.ReplayCtx(assignment, known_open)
     status = "ok"
     detail = None
